@@ -1402,6 +1402,17 @@ def check_param_forwarding(prog, rep, callers=None, rule='P-forward-name'):
                                 FORWARD_ALLOWED:
                             key = (root.qualname, tgt.qualname, p)
                             break
+                if key not in FORWARD_ALLOWED and \
+                        fn.qualname.split('.')[-1].startswith('_') and \
+                        fn.parent is None:
+                    # code moved out of a public function into a private
+                    # helper of the same module keeps that function's
+                    # documented omissions
+                    for (q_, c_, p_), why_ in FORWARD_ALLOWED.items():
+                        if c_ == callee.qualname and p_ == p and \
+                                q_.split('.')[0] == fn.module.name:
+                            key = (q_, c_, p_)
+                            break
                 cnt = seen[key] = seen.get(key, 0) + 1
                 lim = FORWARD_ALLOWED_COUNT.get(key[:2], 1)
                 if key in FORWARD_ALLOWED and cnt <= lim:
